@@ -61,6 +61,8 @@ inductive EKind
   /-- edge type with prefix `VAULT_ACCESS`: parsed level (`from_edge_type`, `none` = unparsable suffix),
       `vault_capacity` after `from_level`, and whether the HMAC signature (if any) verifies -/
   | access (lvl : Option Level) (cap : Option Level) (sigOk : Bool)
+  /-- any edge type outside `ALLOWED_TRAVERSAL_EDGES` (`is_allowed_edge_type` = false): never looked at -/
+  | other
 deriving DecidableEq, Repr
 
 structure Edge where
@@ -79,7 +81,35 @@ def entNode (e : Nat) : Nat := 2 * e
 def secNode (s : Nat) : Nat := 2 * s + 1
 
 def EKind.isAccess : EKind → Bool
-  | .access .. => true | .member => false
+  | .access .. => true | .member => false | .other => false
+
+/-- `ALLOWED_TRAVERSAL_EDGES` (access.rs:166).  Edge types are character lists (`String.toList` of the
+    type string) so that the prefix / suffix tests are structural and evaluate in the kernel. -/
+def allowedTypes : List (List Char) :=
+  ["VAULT_ACCESS".toList, "VAULT_ACCESS_READ".toList, "VAULT_ACCESS_WRITE".toList, "VAULT_ACCESS_ADMIN".toList,
+   "MEMBER".toList]
+
+/-- `VAULT_ACCESS_PREFIX` test -/
+def hasAccessPrefix (ty : List Char) : Bool := "VAULT_ACCESS".toList.isPrefixOf ty
+
+/-- `is_allowed_edge_type`: the edge type starts with one of the allow-listed strings -/
+def isAllowedType (ty : List Char) : Bool := allowedTypes.any (fun a => a.isPrefixOf ty)
+
+/-- `Permission::from_edge_type` (suffix match; bare `VAULT_ACCESS` = legacy Admin) -/
+def levelOfType (ty : List Char) : Option Level :=
+  if "_READ".toList.isSuffixOf ty then some .read
+  else if "_WRITE".toList.isSuffixOf ty then some .write
+  else if "_ADMIN".toList.isSuffixOf ty then some .admin
+  else if ty = "VAULT_ACCESS".toList then some .admin
+  else none
+
+/-- how the search classifies an edge by its type string, in the order of the loop body of
+    `get_permission_level_verified`: not allow-listed → skipped; prefix `VAULT_ACCESS` → access edge
+    (level from the suffix); anything else allow-listed (prefix `MEMBER`) → traversed -/
+def kindOfType (ty : List Char) (cap : Option Level) (sigOk : Bool) : EKind :=
+  if !isAllowedType ty then .other
+  else if hasAccessPrefix ty then .access (levelOfType ty) cap sigOk
+  else .member
 
 def outEdges (g : Graph) (n : Nat) : List Edge := g.filter (fun e => e.src = n)
 
@@ -88,6 +118,7 @@ def outEdges (g : Graph) (n : Nat) : List Edge := g.filter (fun e => e.src = n)
 def edgeLevel (pol : Policy) (e : Edge) (hops : Nat) : Option Level :=
   match e.kind with
   | .member => none
+  | .other => none
   | .access lvl cap sigOk =>
     if sigOk = false then none else
     match lvl with
@@ -121,6 +152,7 @@ def scanEdge (pol : Policy) (target d : Nat) (st : Bfs) (e : Edge) : Bfs :=
   | .member =>
     if e.dst ∈ st.vis then st
     else { st with vis := e.dst :: st.vis, queue := st.queue ++ [(e.dst, d + 1)] }
+  | .other => st
 
 /-- `while let Some((current, depth)) = queue.pop_front()` with explicit fuel -/
 def bfs (pol : Policy) (g : Graph) (target : Nat) : Nat → Bfs → Option Level
@@ -137,10 +169,10 @@ def permLevel (pol : Policy) (g : Graph) (src target : Nat) : Option Level :=
   if src = target then some .admin
   else bfs pol g target (g.length + 1) { vis := [src], queue := [(src, 0)], best := none }
 
-/-- `AccessController::check_path`: any allowed edge, any direction of type, at most 32 hops.
+/-- `AccessController::check_path`: any allow-listed edge (MEMBER or VAULT_ACCESS alike), at most 32 hops.
     Only consulted to pick `InsufficientPermission` vs `AccessDenied`. -/
 def reachStep (g : Graph) (seen : List Nat) : List Nat :=
-  g.foldl (fun acc e => if e.src ∈ seen ∧ e.dst ∉ acc then e.dst :: acc else acc) seen
+  g.foldl (fun acc e => if e.kind ≠ .other ∧ e.src ∈ seen ∧ e.dst ∉ acc then e.dst :: acc else acc) seen
 
 def reachN (g : Graph) : Nat → List Nat → List Nat
   | 0, seen => seen
